@@ -63,7 +63,7 @@ def outer_lock_across_blocking_throttle(s, w):
     not belong to that throttle (the shutdown gate or executor lock of the outer layer).  Anything else keeps its
     ordinary signature."""
     if w is None:
-        return False
+        return None
     outer_files = ("map.py", "retry.py", "cancel_on_shutdown.py", "poll.py", "timeout.py", "asyncio.py", "flat_map.py")
     parked_from_outer = False
     for t in s.final_threads:
@@ -73,7 +73,7 @@ def outer_lock_across_blocking_throttle(s, w):
         if any(f in outer_files for f in files):
             parked_from_outer = True
     if not parked_from_outer:
-        return False
+        return None
     by_name = {}
     for t in s.final_threads:
         by_name.setdefault(t["name"], []).append(t)
@@ -84,8 +84,9 @@ def outer_lock_across_blocking_throttle(s, w):
             own = set(id(x) for x in (getattr(ex, "_lock", None), getattr(ex, "_block_lock", None), getattr(ex._shutdown, "_lock", None)))
             for t in by_name.get(ex._thread.name, []):
                 if not t["done"] and t.get("blocked_id") is not None and t["blocked_id"] not in own:
-                    return True
-    return False
+                    # which kind of outer lock: the shutdown gate of a layer, or RetryExecutor's executor lock
+                    return K2 + ":" + str(t["blocked_on"]).split("@")[-1]
+    return None
 
 
 def evaluate(case):
@@ -101,7 +102,7 @@ def evaluate(case):
     }
     viols = []
     if s.end_reason in ("deadlock", "stuck", "vtime"):
-        sig = K2 if outer_lock_across_blocking_throttle(s, w) else signature(s)
+        sig = outer_lock_across_blocking_throttle(s, w) or signature(s)
         detail = {
             "end_reason": s.end_reason,
             "deadlock": s.deadlock,
@@ -120,7 +121,7 @@ def evaluate(case):
         if stuck_ops:
             o = stuck_ops[0]
             where = [t for t in s.final_threads if t["name"] == o["thread"]]
-            sig = K2 if outer_lock_across_blocking_throttle(s, w) else "C04:call-never-returned:%s-on-%s" % (o["op"][0], o["thread"].split("-")[0])
+            sig = outer_lock_across_blocking_throttle(s, w) or "C04:call-never-returned:%s-on-%s" % (o["op"][0], o["thread"].split("-")[0])
             viols.append({"signature": sig,
                           "detail": {"op": o["op"][:3], "thread": where, "end_reason": s.end_reason}})
     if w is not None and w.errors:
